@@ -6,12 +6,13 @@ Written from the code as it is:
 * `sortBr`, `packFFGo`, `packFFOn`, `packFF` — `Mamba2020Pass.schedule_ff`: `sorted(ffs, key=lambda x: x[0])` (Python's
   sort is stable: insertion sort that keeps equal keys in input order) followed by the packing loop
   (`branchiness_factor = 20`, `branchy_block_factor = 6`, one flush site + the final `if cur_meta`).
-* `sccStep`, `finish`, `packSCCOn`, `packSCC` — the packing inside `compile_scc` (an SCC whose BFS order `tmp_schedule`
-  has >= 10 blocks is cut into meta blocks, three flush sites; `< 10` blocks are inlined as one group).
+* `stepWith`, `sccStep`, `finish`, `packSCCOn`, `packSCC` — the packing inside `compile_scc` (an SCC whose BFS order
+  `tmp_schedule` has >= 10 blocks is cut into meta blocks, three flush sites; `< 10` blocks are inlined as one group).
+  The BFS itself is not modelled: the packing is a function of the order it is given.
 * `keyLe`, `bsearch`, `insertSorted` — `insert_sortedlist` (binary search for the position after the last key `<=` the
   new key, then `list.insert`). A key `(br, -cnt)` of the code is the pair `(br, cnt)` here, `keyLe` is Python's tuple
   comparison `(br1, -cnt1) <= (br2, -cnt2)`.
-* `initInD`, `expand`, `push`, `popQ`, `mainStep`, `mambaLoop`, `mambaSched` — the topological sort of
+* `initInD`, `expand`, `push`, `popQ`, `mainStep` (= `stepWith mainFirst`), `mambaLoop`, `mambaSched` — the topological sort of
   `Mamba2020Pass.schedule_intra_cycle` over the condensation graph `G_new` (`G : Nat → List Nat`, vertices `0..n-1`,
   `G u` in the iteration order of the set `G_new[u]`): `Q.pop(0)` when `cur_br == 0`, `Q.pop()` otherwise,
   `expand_node`, and the three flush sites of the meta-block packing. The result is `schedule` (a list of meta blocks of
